@@ -230,6 +230,11 @@ def _gnn(m, opts):
 
 
 reg('GNNClassifier', ['sym'], _gnn, seeds='labels', equiv=False, seeded='random_state', cls=None, fn=None)
+# GraphSAGE layers with a sample size below most degrees: the neighbour sampler rewrites / prunes a working copy of the
+# adjacency at every epoch (seed C01_5: a non-copying constructor made that working copy the caller's own matrix)
+reg('GNNClassifier[sage]', ['sym'],
+    lambda m, o: _gnn(m, dict(o, params=dict(o.get('params', {}), layer_types='Sage', sample_sizes=1))),
+    seeds='labels', equiv=False, seeded='random_state', cls=None, fn=None)
 # ---- link prediction
 reg('NNLinker', ['sq', 'bip'], _est(L.NNLinker, None, {'links_': 'mat'}, dict(n_neighbors=3)), cls=L.NNLinker, equiv=False)
 
@@ -328,7 +333,7 @@ def accepts(name):
     through check_format / get_adjacency(_values) (which document every SciPy format and ndarray) and np.ndarray is listed
     in the annotation; 'csr+dense' when ndarray is listed but the body does not convert; else 'csr'."""
     a = ALGOS[name]
-    if name == 'GNNClassifier':
+    if name.startswith('GNNClassifier'):
         from sknetwork.gnn import GNNClassifier
         target = GNNClassifier.fit
     else:
@@ -352,7 +357,7 @@ def accepts(name):
 def describe(_):
     return {n: dict(kinds=a['kinds'], seeds=a['seeds'], equiv=a['equiv'], deterministic=a['deterministic'],
                     seeded=a['seeded'], exact=a['exact'], accepts=accepts(n), parallel=a['parallel'],
-                    has_force=(n != 'GNNClassifier' and 'force_bipartite' in inspect.signature(a['cls'].fit if a['cls'] is not None else a['fn']).parameters)) for n, a in ALGOS.items()}
+                    has_force=(not n.startswith('GNNClassifier') and 'force_bipartite' in inspect.signature(a['cls'].fit if a['cls'] is not None else a['fn']).parameters)) for n, a in ALGOS.items()}
 
 
 def run(args):
